@@ -32,6 +32,9 @@ MARKETS = {
     'zerovol': {'AAA': ('rising', '41.37'), 'BBB': ('gapdown', '103.11'), 'CCC': ('zigzag', '17.93')},
     # an exchange holiday on the business month end (Fri 28 Feb): no asset has a bar that day, all have bars after it
     'holiday': {'AAA': ('rising', '41.37'), 'BBB': ('zigzag', '103.11'), 'CCC': ('gapdown', '17.93')},
+    # files whose Adj Close differs from Close by a ratio that changes from row to row and is not 1 on the last row
+    # (dividends / splits still to come at the time of each bar): adjusted prices of a day depend on that day's row only
+    'adjusted': {'AAA': ('zigzag', '41.37'), 'BBB': ('rising', '103.11'), 'CCC': ('gapdown', '17.93')},
     # a second data source (listed after the first) carries AAA at other prices and with a LONGER file
     'twosrc': {'AAA': ('rising', '41.37'), 'BBB': ('zigzag', '103.11'), 'CCC': ('falling', '17.93'),
                'AAA@2': ('falling', '77.77'), 'CCC@2': ('rising', '55.05')},
@@ -57,6 +60,9 @@ def base_market(name):
         k = len(PRE)
         m['BBB'] = [(d, o, c, 0 if k + 2 <= i <= k + 4 else 1000) for i, (d, o, c) in enumerate(m['BBB'])]
         m['AAA'] = [(d, o, c, 0 if i in (k + 1, k + 6) else 1000) for i, (d, o, c) in enumerate(m['AAA'])]
+    if name == 'adjusted':
+        for j, sym in enumerate(sorted(m)):
+            m[sym] = [(d, o, c, 1000, Fraction(50 + 3 * j + i, 100)) for i, (d, o, c) in enumerate(m[sym])]
     if name == 'blankstart':
         k = len(PRE) + 4
         m['CCC'] = [(d, None, None) if i < k else (d, o, c) for i, (d, o, c) in enumerate(m['CCC'])]
@@ -246,7 +252,7 @@ def item_eval(item):
 
 def items(tier):
     cfgs = configs(tier)
-    markets = ['m0', 'late', 'hole', 'gap', 'blankstart', 'zerovol', 'twosrc', 'holiday'] if tier == 'quick' else list(MARKETS)
+    markets = ['m0', 'late', 'hole', 'gap', 'blankstart', 'zerovol', 'twosrc', 'holiday', 'adjusted'] if tier == 'quick' else list(MARKETS)
     rewrites = ['remove', 'reverse', 'blank'] if tier == 'quick' else REWRITES
     cuts = [c.isoformat() for c in CUTS]
     size = 10 if tier == 'quick' else 25
